@@ -197,7 +197,7 @@ impl<'a> SdesItem<'a> {
             let prefix_len = item.priv_prefix_len();
             let value_offset = item.priv_value_offset();
 
-            if value_offset as usize > data.len() {
+            if value_offset as usize > item.data.len() {
                 return Err(RtcpParseError::SdesPrivPrefixTooLarge {
                     len: prefix_len as usize,
                     available: length as u8 - 1,
